@@ -10,6 +10,7 @@ import (
 	"fmt"
 	"math/rand"
 	"os"
+	"runtime"
 	"sort"
 	"strconv"
 	"strings"
@@ -85,6 +86,12 @@ func TestCheck(t *testing.T) {
 	r.Cases(n, par, func(c *kit.Case) {
 		runCase(r, c, &sampled)
 	})
+	// resource diagnostics (evidence only)
+	runtime.GC()
+	var ms runtime.MemStats
+	runtime.ReadMemStats(&ms)
+	r.Set("goroutines_after_all_cases", runtime.NumGoroutine())
+	r.Set("go_heap_inuse_mb_after_all_cases", ms.HeapInuse>>20)
 }
 
 func (w *world) expectedConsensusKeys() []dkey {
